@@ -191,6 +191,12 @@ class Lexer:
                     % (node.keyword, self.control_line[-1].keyword),
                     **self.exception_kwargs,
                 )
+            elif node.keyword in ("else", "elif", "except", "finally"):
+                raise exceptions.SyntaxException(
+                    "Keyword '%s' without a preceding control keyword"
+                    % node.keyword,
+                    **self.exception_kwargs,
+                )
 
     _coding_re = re.compile(r"#.*coding[:=]\s*([-\w.]+).*\r?\n")
 
